@@ -68,6 +68,7 @@ func (v *vViolation) Sig() string {
 // per-shard context
 
 type vCtx struct {
+	bfsRuns  int
 	Prop     string
 	Tier     string
 	Shard    string
@@ -625,13 +626,17 @@ func vBFS(c *vCtx, sys vSystem, maxDepth int) { vBFSFrom(c, sys, maxDepth, nil) 
 // vBFSFrom is vBFS started from the state reached by prefix (used to shard a space by
 // its first operations); the prefix itself is executed once with the oracle on.
 func vBFSFrom(c *vCtx, sys vSystem, maxDepth int, prefix []vOp) {
+	// every search has its own visited set: two searches in one shard (different
+	// training sets, aliasing modes, oracles) must never prune each other's states
+	c.bfsRuns++
+	tag := fmt.Sprintf("bfs%d|", c.bfsRuns)
 	frontier := [][]vOp{append([]vOp(nil), prefix...)}
 	sys.Reset()
 	for i, o := range prefix {
 		sys.Apply(o, prefix[:i], true)
 		c.Transitions++
 	}
-	c.NewState(sys.Key())
+	c.NewState(tag + sys.Key())
 	completed := len(prefix)
 	for depth := len(prefix); depth < maxDepth && len(frontier) > 0; depth++ {
 		var next [][]vOp
@@ -655,7 +660,7 @@ func vBFSFrom(c *vCtx, sys vSystem, maxDepth int, prefix []vOp) {
 				sys.Apply(op, hist, true)
 				c.Transitions++
 				c.Traces++
-				if c.NewState(sys.Key()) {
+				if c.NewState(tag + sys.Key()) {
 					nh := make([]vOp, len(hist)+1)
 					copy(nh, hist)
 					nh[len(hist)] = op
